@@ -109,14 +109,22 @@ class LangWorker:
     def call(self, op, cid, text, timeout=60):
         return self.batch(op, [(cid, text)], timeout)[0]
 
+    CRASH_BUDGET = 8
+
     def batch(self, op, cases, timeout=60):
         """cases = [(id, text)] -> list of answers in order.  The requests are pipelined (written while answers are
         read), so a loaded machine costs one scheduling round trip per batch, not per case.  `timeout` is the
         watchdog for a *single* case (time without any new answer).  After a crash/hang the worker is restarted
-        and the remaining cases are sent again."""
+        and the remaining cases are sent again.  Once this worker object has seen CRASH_BUDGET crashes/hangs the
+        remaining cases of the batch are not executed any more (answer kind "skipped"): the violation is
+        established and every further crash costs a process start plus a symbolised sanitizer report."""
         answers = []
         todo = list(cases)
         while todo:
+            if self.restarts >= self.CRASH_BUDGET and len(cases) > 1:
+                answers += [{"crash": "not executed: crash budget of this worker exhausted", "kind": "skipped", "id": c}
+                            for c, _ in todo]
+                break
             got, why = self._pump(op, todo, timeout)
             answers += got
             todo = todo[len(got):]
